@@ -104,7 +104,7 @@ _replay_before_relay = replay
 
 def correspondence(ctx, verdict, pr):
     res = _corr_before_relay(ctx, verdict, pr)
-    res['broken'] += relaylib.run_copy(ctx, verdict, 'C01')
+    res['broken'] += relaylib.run(ctx, verdict, 'C01')
     return res
 
 
